@@ -375,7 +375,9 @@ def oracle_c15(rows):
     still-unconfirmed candidate. All keys lie below the account's next-child counter."""
     fails = []
     for r in rows:
-        ever = {}      # (acct, child) -> identity (root, cb, value)
+        # (acct, child) -> identity of the output: (coinbase?, value) — key and value fix the
+        # commitment; which account a record is booked under is bookkeeping (C04), not identity
+        ever = {}
         prev = None
         for idx, s in enumerate(r["steps"]):
             snap = s["snap"]
@@ -383,12 +385,12 @@ def oracle_c15(rows):
             po = {(o["acct"], o["child"]): o for o in prev["outputs"]} if prev else {}
             for o in snap["outputs"]:
                 key = (o["acct"], o["child"])
-                ident = (o["root"], o["cb"], o["value"])
+                ident = (o["cb"], o["value"])
                 if o["mmr"] is None and o["child"] >= child.get(o["acct"], 0):
                     fails.append(_fail(r, idx, "key %s not below the next-child counter %s" % (key, child.get(o["acct"], 0))))
                 if key in ever and ever[key] != ident:
                     old = po.get(key)
-                    candidate = o["cb"] and ever[key][1] and (old is None or old["status"] == 0)
+                    candidate = o["cb"] and ever[key][0] and (old is None or old["status"] == 0)
                     if not candidate:
                         fails.append(_fail(r, idx, "derivation path %s reused: was %s, now %s" % (key, ever[key], ident)))
                 ever[key] = ident
@@ -454,8 +456,9 @@ def oracle_c04(rows, equation=True):
     """After a full refresh (update_all) of an account: every record of that account that is
     Unspent or Locked is in the node's UTXO set and every Unconfirmed/Reverted one is not;
     the balance figures are the partition of the record values recomputed independently;
-    after the final update_wallet_state (histories without cancels): no Spent record is in the
-    UTXO set and confirmed credits minus confirmed debits equal total + locked."""
+    after the final update_wallet_state (histories without cancels and without a broadcast spend
+    the wallet never reserved): no Spent record is in the UTXO set and confirmed credits minus
+    confirmed debits equal total + locked."""
     fails = []
     for r in rows:
         had_cancel = False
@@ -528,7 +531,10 @@ def oracle_c04(rows, equation=True):
                     if o["status"] in (0, 4) and on_chain:
                         fails.append(_fail(r, idx, "after full refresh output %s is in the UTXO set but recorded status %d"
                                            % ((o["acct"], o["child"]), o["status"])))
-            if equation and k == "update_state" and s["rc"] == [0] and not had_cancel:
+            # (not for a wallet whose outputs were spent by a broadcast transaction it never reserved —
+            # tx_lock_outputs skipped: the wallet has no record of that spend to account for)
+            if equation and k == "update_state" and s["rc"] == [0] and not had_cancel \
+                    and not s["extra"].get("unreserved_spend"):
                 cred = sum(int(t["credited"]) - int(t["debited"]) for t in snap["txs"]
                            if t["parent"] == act and t["confirmed"])
                 held = sum(int(o["value"]) for o in snap["outputs"] if o["root"] == act and o["status"] in (1, 2))
